@@ -395,3 +395,131 @@ def x_rand(p):
            "tab1": sorted(tab1), "tab2": sorted(tab2)}
     rec.update(res)
     return rec
+
+
+# ----------------------------------------------------------------------------- C20
+def _size_value(s):
+    """size spec {"cls": "int"|"float", "v": n}: an int n, or the non-integer n + 0.5"""
+    return s["v"] if s["cls"] == "int" else s["v"] + 0.5
+
+
+def _lim_value(s):
+    if s["cls"] == "none":
+        return None
+    if s["cls"] == "nan":
+        return float("nan")
+    return float(s["v"]) if s.get("asfloat") else s["v"]
+
+
+def _vol_value(v, isnan):
+    return float("nan") if isnan else float(v)
+
+
+@executor("ctor")
+def x_ctor(p):
+    from .twin import proj_comp, proj_entry, to_units
+    from fractions import Fraction
+
+    rt = robotools()
+    one = Fraction(1)
+    kind = p["kind"]
+    rows, cols, vrows = p["rows"], p["cols"], p["vrows"]
+    init = p["init"]
+    form = init["form"]
+    vals, nans = init.get("vals", []), init.get("nan", [])
+
+    def val(i):
+        return _vol_value(vals[i], nans[i] if i < len(nans) else False)
+
+    if form == "none":
+        iv = None
+    elif form == "scalar":
+        iv = val(0)
+        if init.get("asint") and not (nans and nans[0]):
+            iv = int(vals[0])
+    elif form in ("flat", "percol"):
+        iv = [val(i) for i in range(len(vals))]
+        if init.get("nd"):
+            iv = np.array(iv)
+    else:  # 2d: vals is row-major with ncols2 columns
+        nc = init["ncols"]
+        iv = [[val(r * nc + c) for c in range(nc)] for r in range(len(vals) // nc)]
+        if init.get("nd", True):
+            iv = np.array(iv)
+    names = p.get("names")
+    exc, obj = None, None
+    try:
+        if kind == "trough":
+            kw = {}
+            if iv is not None:
+                kw["initial_volumes"] = iv
+            if names is not None:
+                kw["column_names"] = names["list"] if names["kind"] == "list" else names["str"]
+            obj = rt.Trough(p.get("name", "L"), _size_value(vrows), _size_value(cols), min_volume=_lim_value(p["minv"]),
+                            max_volume=_lim_value(p["maxv"]), **kw)
+        else:
+            kw = {}
+            if iv is not None:
+                kw["initial_volumes"] = iv
+            if vrows["given"]:
+                kw["virtual_rows"] = _size_value(vrows)
+            if names is not None:
+                kw["component_names"] = {wid(*w): n for w, n in names["wells"]}
+            obj = rt.Labware(p.get("name", "L"), _size_value(rows), _size_value(cols), min_volume=_lim_value(p["minv"]),
+                             max_volume=_lim_value(p["maxv"]), **kw)
+    except Exception as e:  # noqa
+        exc = e
+    obs = {"wells": [], "idx": [], "nidx": 0, "volshape": [0, 0], "vol": [], "hn": 0, "last": {"h": False, "l": "", "s": [], "base": False, "num": -1},
+           "comp": [], "minv": -1, "maxv": -1, "shape": [0, 0], "trough": False, "finite": False}
+    if obj is not None:
+        try:
+            idrows, ncols = obj.wells.shape
+            idx = []
+            for r in range(idrows):
+                for c in range(ncols):
+                    t = obj.indices.get(wid(r, c), (-1, -1)) if r < 26 else (-1, -1)
+                    idx.append([_int(t[0]), _int(t[1])])
+            hist = obj.history
+            comp, _ = proj_comp(obj)
+            obs = {
+                "wells": [[str(x) for x in row] for row in obj.wells.tolist()],
+                "idx": idx,
+                "nidx": len(obj.indices),
+                "volshape": [int(x) for x in obj.volumes.shape],
+                "vol": [to_units(v, one) for v in obj.volumes.flatten("F")],
+                "hn": len(hist),
+                "last": proj_entry(hist[-1][0], hist[-1][1], one) if hist else obs["last"],
+                "comp": comp,
+                "minv": to_units(obj.min_volume, one),
+                "maxv": to_units(obj.max_volume, one),
+                "shape": [int(x) for x in obj.shape],
+                "trough": bool(obj.is_trough),
+                "finite": bool(np.all(np.isfinite(obj.volumes))),
+            }
+        except Exception as e:  # noqa
+            exc = e
+    lognames = {"given": names is not None, "wells": [], "list": [], "isstr": False, "str": ""}
+    if names is not None:
+        if kind == "trough":
+            if names["kind"] == "list":
+                lognames["list"] = [{"h": n is not None, "l": n or ""} for n in names["list"]]
+            else:
+                lognames["isstr"] = True
+                lognames["str"] = names["str"]
+        else:
+            lognames["wells"] = [{"w": list(w), "h": n is not None, "l": n or ""} for w, n in names["wells"]]
+    return {
+        "fn": "ctor",
+        "id": p.get("tag", "") + f" {kind} rows={rows} cols={cols} vrows={vrows} init={form}",
+        "kind": kind,
+        "name": p.get("name", "L"),
+        "rows": rows,
+        "cols": cols,
+        "vrows": vrows,
+        "minv": {"cls": p["minv"]["cls"], "v": p["minv"].get("v", 0)},
+        "maxv": {"cls": p["maxv"]["cls"], "v": p["maxv"].get("v", 0)},
+        "init": {"form": form, "vals": list(vals), "nan": [bool(x) for x in nans] + [False] * (len(vals) - len(nans)), "ncols": init.get("ncols", 0)},
+        "names": lognames,
+        "out": outcome_class(exc),
+        "obs": obs,
+    }
